@@ -177,6 +177,21 @@ def gen_cidr():
                     else:
                         c4 = c6 = NOFAIL              # ' 8', '08'
                     out.append((t, c4, c6))
+    # IPv4 networks whose prefix is spelled as a dotted mask: netmask, host (wildcard) mask,
+    # non-contiguous; the standard library defines the answer (ipaddress.ip_network, non-strict)
+    import ipaddress
+    masks = ['255.255.255.0', '255.0.0.0', '255.255.255.255', '0.0.0.0', '0.0.0.255', '0.255.255.255',
+             '0.0.0.1', '0.0.255.255', '255.0.255.0', '0.255.0.255', '255.255.255.256', '1.2.3.4',
+             '128.0.0.0', '127.255.255.255']
+    for a in ('10.0.0.0', '192.0.2.0', '10.1.2.3', '0.0.0.0'):
+        for m in masks:
+            t = '%s/%s' % (a, m)
+            try:
+                ipaddress.ip_network(t, strict=False)
+                c4 = ACCEPT
+            except ValueError:
+                c4 = NOFAIL
+            out.append((t, c4, NOFAIL))
     return out
 
 
